@@ -44,7 +44,13 @@ func errFor(tok string, tag string) message.Message {
 		bf, _ := strconv.Atoi(p[2])
 		return &message.ReadTimeout{ErrorMessage: tag, Consistency: primitive.ConsistencyLevelQuorum, Received: int32(rc), BlockFor: int32(bf), DataPresent: p[3] == "1"}
 	case "wt":
-		return &message.WriteTimeout{ErrorMessage: tag, Consistency: primitive.ConsistencyLevelQuorum, Received: 1, BlockFor: 2, WriteType: primitive.WriteType(p[1])}
+		// wt:<write type>[:<received>:<block for>] - the documented policy looks at the write type only
+		rc, bf := 1, 2
+		if len(p) >= 4 {
+			rc, _ = strconv.Atoi(p[2])
+			bf, _ = strconv.Atoi(p[3])
+		}
+		return &message.WriteTimeout{ErrorMessage: tag, Consistency: primitive.ConsistencyLevelQuorum, Received: int32(rc), BlockFor: int32(bf), WriteType: primitive.WriteType(p[1])}
 	case "un":
 		return &message.Unavailable{ErrorMessage: tag, Consistency: primitive.ConsistencyLevelQuorum, Required: 2, Alive: 1}
 	case "bs":
@@ -394,6 +400,7 @@ func runRetry(op string) (out string) {
 }
 
 var retryOutcomes = []string{"ok", "ok", "rt:2:2:0", "rt:1:2:0", "rt:2:2:1", "rt:3:2:0", "wt:BATCH_LOG", "wt:SIMPLE", "wt:BATCH", "wt:CAS", "wt:COUNTER", "wt:UNLOGGED_BATCH",
+	"wt:BATCH_LOG:0:2", "wt:BATCH_LOG:0:1", "wt:BATCH_LOG:2:2", "wt:SIMPLE:0:3", "wt:BATCH:0:1", "rt:0:1:0", "rt:0:2:1",
 	"un", "un", "bs", "bs", "se", "ov", "tr", "rf", "wf", "inv", "syn", "unauth", "cfg", "ae", "ff", "drop", "drop", "drop", "ue", "pe"}
 var retryKinds = []string{"qi", "qn", "qu", "qs", "qc", "ei", "en", "eu", "bi", "bn", "bp", "bq", "bu", "br", "gi", "gn", "gs", "ge"}
 
@@ -401,6 +408,10 @@ func genRetry(e *emitter, r *rng.R, n int, tier string) {
 	corpus := []string{
 		"H:3 C:1 W:0 K:qi D:- X:un X:un X:ok",
 		"H:3 C:1 W:1 K:qn D:- X:wt:BATCH_LOG",
+		"H:3 C:1 W:1 K:qn D:- X:wt:BATCH_LOG:0:2",
+		"H:2 C:1 W:0 K:bn D:- X:wt:BATCH_LOG:0:1 X:ok",
+		"H:2 C:1 W:0 K:bu D:- X:wt:BATCH_LOG:0:2 X:ok",
+		"H:2 C:1 W:0 K:qc D:- X:wt:BATCH_LOG:0:3 X:ok",
 		"H:3 C:1 W:2 K:qn D:- X:drop",
 		"H:2 C:1 W:0 K:qi D:- X:drop X:drop",
 		"H:3 C:1 W:0 K:qi D:- X:rt:2:2:0 X:rt:2:2:0",
